@@ -544,7 +544,7 @@ class StmtMixin:
                 self.assume_typed(nv, h, depth=0)
         writes = self.loop_writes(node)
         if writes:
-            self.havoc_heap(h, writes, self.modset)
+            self.havoc_heap(h, writes, self.modset, keys=self.loop_write_keys(node))
         if h.out is not None and self.contains_yield(node):
             h.out = SeqV(h.out.elem, fresh('out_arr', z3.ArraySort(I, sort_of(h.out.elem))), fresh('out_n', I))
             h.assume(h.out.n >= 0)
@@ -566,6 +566,112 @@ class StmtMixin:
             if isinstance(n, (ast.List, ast.ListComp, ast.Dict, ast.Set, ast.SetComp, ast.DictComp)):
                 return True
         return False
+
+    LIST_MUT = {'append', 'extend', 'insert', 'sort', 'reverse'}
+    SET_MUT = {'add', 'discard'}
+    DICT_MUT = {'setdefault'}
+    ANY_MUT = {'pop', 'remove', 'clear', 'update', 'popitem', '__setitem__', '__delitem__'}
+
+    def loop_write_keys(self, node):
+        """heap components a statement inside the loop may write, from the syntax and the declared contracts (a type-based write effect):
+        attribute stores name the field; container mutators name the container kind; calls contribute the components of the types in the
+        callee's modifies clause; anything that cannot be classified makes the answer 'every component' (None)."""
+        from .state import _key_sorts
+        keys = set()
+        allk = list(_key_sorts)
+        LISTK = [k for k in allk if k[0] in ('len', 'arr')]
+        SETK = [k for k in allk if k[0] in ('mem', 'card')]
+        DICTK = [k for k in allk if k[0] in ('dom', 'val', 'card', 'ord')]
+        CONT = LISTK + SETK + DICTK
+
+        def fields_named(f):
+            return [k for k in allk if k[0] == 'fld' and k[2] == f]
+
+        for n in ast.walk(node):
+            if isinstance(n, ast.Attribute) and isinstance(n.ctx, (ast.Store, ast.Del)):
+                keys.update(fields_named(n.attr))
+            elif isinstance(n, ast.Subscript) and isinstance(n.ctx, (ast.Store, ast.Del)):
+                keys.update(CONT)
+            elif isinstance(n, (ast.List, ast.ListComp)):
+                keys.update(LISTK)
+            elif isinstance(n, (ast.Set, ast.SetComp)):
+                keys.update(SETK)
+            elif isinstance(n, (ast.Dict, ast.DictComp)):
+                keys.update(DICTK)
+            elif isinstance(n, (ast.Yield, ast.YieldFrom, ast.Lambda, ast.Await, ast.With, ast.Try, ast.Starred)):
+                if isinstance(n, (ast.With, ast.Await, ast.Starred)):
+                    return None
+            elif isinstance(n, ast.Call):
+                if self.call_is_pure(n):
+                    continue
+                f = n.func
+                if isinstance(f, ast.Attribute):
+                    if f.attr in self.LIST_MUT:
+                        keys.update(LISTK); continue
+                    if f.attr in self.SET_MUT:
+                        keys.update(SETK); continue
+                    if f.attr in self.DICT_MUT:
+                        keys.update(DICTK); continue
+                    if f.attr in self.ANY_MUT:
+                        keys.update(CONT); continue
+                    cs = [c for t, c in self.reg.contracts.items() if t.endswith('.' + f.attr) or t.endswith(':' + f.attr)]
+                    r = self.resolve_name(ast.unparse(f))
+                    if r is not None and r[0] == 'contract':
+                        cs = [self.reg.contracts[r[1]]]
+                    if not cs:
+                        return None
+                elif isinstance(f, ast.Name):
+                    if f.id in self.reg.classes or (self.resolve_name(f.id) or ('',))[0] == 'class':
+                        cn = f.id if f.id in self.reg.classes else self.resolve_name(f.id)[1]
+                        for c in set(self.reg.mro(cn)):
+                            keys.update(k for k in allk if k[0] == 'fld' and k[1] == c)
+                        init = self.reg.find_method(cn, '__init__')
+                        cs = [init] if init is not None else []
+                    else:
+                        r = self.resolve_name(f.id)
+                        if r is not None and r[0] == 'contract':
+                            cs = [self.reg.contracts[r[1]]]
+                        elif r is not None and r[0] == 'dispatch':
+                            cs = [self.reg.contracts[t] for t in r[1].values()]
+                        elif f.id in ('list', 'sorted', 'reversed'):
+                            keys.update(LISTK); continue
+                        elif f.id in ('set', 'frozenset'):
+                            keys.update(SETK); continue
+                        elif f.id == 'dict':
+                            keys.update(DICTK); continue
+                        elif f.id in ('copy', 'deepcopy'):
+                            return None
+                        else:
+                            return None
+                else:
+                    return None
+                for c in cs:
+                    if c.ghost.get('callbacks') or any(k_.startswith('callv:') for k_ in c.ghost):
+                        return None
+                    ptypes = dict(c.params)
+                    for m in c.modifies:
+                        # the static type of a modifies entry: a parameter, or an attribute path from one; anything else: give up
+                        parts = m.replace('elements(', '').replace(')', '').split('.')
+                        t = ptypes.get(parts[0])
+                        for a_ in parts[1:]:
+                            if t is None:
+                                break
+                            tt = t.args[0] if t.kind == 'opt' else t
+                            fld = self.reg.find_field(tt.args[0], a_) if tt.kind == 'obj' else None
+                            t = fld[2] if fld else None
+                        if t is None:
+                            return None
+                        if t.kind in ('list', 'seq') and 'elements(' in m:
+                            t = t.args[0]
+                        keys.update(self.keys_of(SV(t, NULL)))
+                    if not c.pure and not c.modifies:
+                        pass        # allocation only
+        # first-class calls in the loop (callbacks with a model) may write what their model says: be conservative
+        if any(k_.startswith('callv:') for k_ in self.c.ghost):
+            for n in ast.walk(node):
+                if isinstance(n, ast.Call) and ('callv:' + self.call_ordinal(n)) in self.c.ghost:
+                    return None
+        return [k for k in allk if k in keys and k != ('alloc',)]
 
     def havoc_heap(self, st, writes, modset, keys=None):
         """replace heap components by fresh arrays; objects allocated at *function entry* that are not in modset are unchanged;
